@@ -61,7 +61,7 @@ Lemma deep_line : forall f t, (depth t <= f)%nat -> wf_b t = true -> exists l, I
 Proof.
   induction f as [|f IH].
   - intros t Hd Hw.
-    destruct t as [c body more|ch n content|ts|mk pad ts|mk pad ts bl next|lv hc hb|rc rn|e0 epre ech edbl ew epost|l0 lpre lw ldest lpost|s0 st0' sgs|k0 kpre kcode kpost|b0 bbody bk bmore|o0 opre ox opost]; [| |cbn [depth] in Hd; lia|cbn [depth] in Hd; lia|cbn [depth] in Hd; lia| | | | | | | |].
+    destruct t as [c body more|ch n content|ts|mk pad ts|mk pad ts bl next|lv hc hb|rc rn|e0 epre ech edbl ew epost|l0 lpre lw ldest lpost|s0 st0' sgs|k0 kpre kn kcode kpost|b0 bbody bk bmore|o0 opre ox opost]; [| |cbn [depth] in Hd; lia|cbn [depth] in Hd; lia|cbn [depth] in Hd; lia| | | | | | | |].
     + exists (SLine 0 c body). split; [left; reflexivity|cbn [depth weight]; lia].
     + exists (SLine 0 ch (repeat ch (n - 1))). split; [left; reflexivity|cbn [depth weight]; lia].
     + eexists. split; [left; reflexivity|cbn [depth weight]; lia].
@@ -72,7 +72,7 @@ Proof.
     + eexists. split; [left; reflexivity|cbn [depth weight]; lia].
     + destruct bmore; eexists; (split; [left; reflexivity|cbn [depth weight]; lia]).
     + eexists. split; [left; reflexivity|cbn [depth weight]; lia].
-  - intros t. induction t as [c body more|ch n content|ts|mk pad ts|mk pad ts bl next IHn|lv hc hb|rc rn|e0 epre ech edbl ew epost|l0 lpre lw ldest lpost|s0 st0' sgs|k0 kpre kcode kpost|b0 bbody bk bmore|o0 opre ox opost]; intros Hd Hw.
+  - intros t. induction t as [c body more|ch n content|ts|mk pad ts|mk pad ts bl next IHn|lv hc hb|rc rn|e0 epre ech edbl ew epost|l0 lpre lw ldest lpost|s0 st0' sgs|k0 kpre kn kcode kpost|b0 bbody bk bmore|o0 opre ox opost]; intros Hd Hw.
     + exists (SLine 0 c body). split; [left; reflexivity|cbn [depth weight]; lia].
     + exists (SLine 0 ch (repeat ch (n - 1))). split; [left; reflexivity|cbn [depth weight]; lia].
     + cbn [wf_b] in Hw. repeat rewrite andb_true_iff in Hw. destruct Hw as [[Hs Hall] Hg].
